@@ -1,10 +1,11 @@
 SPECIFICATION Spec
 CONSTANTS
-  SccFix = "retain"
+  SccFix = "forget"
   TfcChain = TRUE
-  MaxEpochs = 2
+  MaxEpochs = 3
   MaxSets = 1
-  MaxQueries = 1
-  Emitting = "bad"
+  MaxQueries = 2
+  Emitting = "no"
+INVARIANT Terminates
 VIEW View
 CHECK_DEADLOCK FALSE
